@@ -44,6 +44,17 @@ from .values import (
 )
 
 
+def _walk_own(fnode):
+    """the nodes of a function body, not descending into nested functions / lambdas / classes"""
+    stack = list(fnode.body)
+    while stack:
+        n = stack.pop()
+        yield n
+        for ch in ast.iter_child_nodes(n):
+            if not isinstance(ch, (ast.FunctionDef, ast.AsyncFunctionDef, ast.Lambda, ast.ClassDef)):
+                stack.append(ch)
+
+
 class ReturnSignal(Exception):
     def __init__(self, val):
         self.val = val
@@ -410,11 +421,19 @@ class Executor:
         self.functions_seen.add(func.qualname)
         self.frames.append(frame)
         saved_loops = self.loops
+        # a generator function (other than a context manager being entered by `with`): its yields are collected, in
+        # order, into the list that iterating over the call produces - laziness changes WHEN an element is computed, not
+        # what the consumer sees (the analysed generators have no side effects between yields that a consumer reads)
+        hooks = self.__dict__.get("yield_hooks") or []
+        is_gen = any(isinstance(n_, (ast.Yield, ast.YieldFrom)) for n_ in _walk_own(func.node)) and not (hooks and hooks[-1][0] is func and not getattr(hooks[-1][1], "_entered", False))
+        if is_gen and not (hooks and hooks[-1][0] is func):
+            self.list_counter += 1
+            frame.env["$yield"] = ListV([], lid=self.list_counter)
         try:
             self.exec_block(func.node.body, frame)
-            return NONE
+            return frame.env.get("$yield", NONE)
         except ReturnSignal as r:
-            return r.val
+            return frame.env["$yield"] if "$yield" in frame.env else r.val
         finally:
             self.loops = saved_loops
             self.frames.pop()
@@ -475,7 +494,37 @@ class Executor:
             self.frames.pop()
 
     # -------------------------------------------------------------- objects
+    def _dataclass_fields(self, cls: ClassInfo):
+        """[(field, default expr | None)] for a class decorated with @dataclass that defines no __init__ of its own"""
+        decos = [ast.unparse(d).split("(")[0].split(".")[-1] for d in getattr(cls.node, "decorator_list", [])]
+        if "dataclass" not in decos or "__init__" in cls.methods:
+            return None
+        return [(st.target.id, st.value) for st in cls.node.body if isinstance(st, ast.AnnAssign) and isinstance(st.target, ast.Name)]
+
     def new_object(self, cls: ClassInfo, args, kwargs, node=None, key=None):
+        dc = self._dataclass_fields(cls)
+        if dc is not None and cls.qualname not in self.summaries:
+            # the generated __init__ of a dataclass stores its arguments under the field names, in field order
+            if len(args) > len(dc) or any(k not in {n for n, _ in dc} for k in kwargs):
+                raise Undecided(f"arguments of dataclass {cls.name} do not match its fields", node)
+            self.obj_counter += 1
+            obj = ObjV(cls, key or f"{cls.name}#{self.obj_counter}")
+            for k, (name, dflt) in enumerate(dc):
+                if k < len(args):
+                    obj.fields[name] = args[k]
+                elif name in kwargs:
+                    obj.fields[name] = kwargs[name]
+                elif dflt is not None:
+                    f2 = Frame(None, cls.module, {})
+                    self.frames.append(f2)
+                    try:
+                        obj.fields[name] = self.ev(dflt, f2)
+                    finally:
+                        self.frames.pop()
+                else:
+                    raise Undecided(f"field {name} of dataclass {cls.name} not given", node)
+            self.emit("new", node, obj=obj)
+            return obj
         if cls.qualname in self.summaries:
             r = self.summaries[cls.qualname](self, cls, args, kwargs, None, node)
             if r is not NotImplemented:
@@ -928,6 +977,10 @@ class Executor:
 
     def ex_Yield(self, e, frame):
         hooks = self.__dict__.get("yield_hooks") or []
+        if "$yield" in frame.env and not (hooks and frame.func is hooks[-1][0]):
+            v = self.ev(e.value, frame) if e.value is not None else NONE
+            self.models.list_method(self, frame.env["$yield"], "append", [v], {}, e)
+            return NONE
         if not hooks or frame.func is not hooks[-1][0]:
             raise Undecided("expression Yield not supported", e)
         v = self.ev(e.value, frame) if e.value is not None else NONE
@@ -1099,6 +1152,8 @@ class Executor:
 
     def generic_iteration(self, st, frame, ctx: LoopCtx, head):
         names, mutated = self.assigned_names(st.body)
+        if "$yield" in frame.env and any(isinstance(n_, (ast.Yield, ast.YieldFrom)) for x_ in st.body for n_ in ast.walk(x_)):
+            mutated = set(mutated) | {"$yield"}  # the list of yielded values grows in the loop
         carried = [n for n in sorted(names) if frame.lookup(n) is not None]
         ctx.info["carried"] = carried
         ctx.info["assigned"] = sorted(names)
@@ -1230,6 +1285,32 @@ class Executor:
             return elem
         if isinstance(it, ListV):
             ctx.info["over"] = it
+            comp = getattr(it, "comp", None)
+            if comp is not None and not comp["conds"] and getattr(it, "version", 0) == 0 and comp.get("ctx") is not None:
+                # the list an unfiltered comprehension built, iterated in order: element k is the comprehension's element
+                # for ITS k-th item - the comprehension's position variable becomes this loop's
+                lvc = Atom("lv", comp["ctx"].lid)
+                lvl = NF.atom(Atom("lv", tag))
+                self.atom_shapes[Atom("lv", tag).key] = ()
+
+                def rebase(v):
+                    if isinstance(v, Num) and v.nf is not None and lvc.key in atoms_of(v.nf, deep=True):
+                        return Num(subst(v.nf, {lvc.key: lvl}), v.shape, v.dtype, v.pytype, meta=dict(v.meta))
+                    if isinstance(v, TupleV):
+                        t = TupleV([rebase(x) for x in v.items])
+                        for a_ in ("names", "record"):
+                            if hasattr(v, a_):
+                                setattr(t, a_, getattr(v, a_))
+                        return t
+                    return v
+
+                el = comp["elem"]
+                if isinstance(el, (Num, TupleV)):
+                    src_rng = comp["ctx"].info.get("range")
+                    if src_rng is not None:
+                        ctx.info["range"] = src_rng
+                    ctx.info["comp_of"] = comp
+                    return rebase(el)
             return self.list_elem(it, node)
         if isinstance(it, OpaqueV) and it.meta.get("kind") in ("enumerate", "zip"):
             idx = Num(NF.atom(Atom("lv", tag)), (), "int", meta={"loopvar": ctx})
